@@ -299,6 +299,11 @@ package main
 //@   ensures [complete] forall k int :: 0 <= k && k < len(ads) && bgp.ForPeer(ads[k], peerName) ==> (ads[k] in result)
 //@   ensures result == nil || fresh(result)
 //@   modifies fresh []*bgp.Advertisement
+//@   assert before append#1: [inAds] (a in ads) && a == ads[idx(1)]
+//@   assert before append#1: [forPeer] bgp.ForPeer(a, peerName)
+//@   assert after append#1: [grown] forall x *bgp.Advertisement :: (x in ret) == ((x in res) || x == a)
+//@   assert after append#1: [adsSame] forall x *bgp.Advertisement :: (x in ads) == pre(x in ads)
+//@   assert after append#1: [keeps] forall x *bgp.Advertisement :: (x in ret) ==> (x in ads) && bgp.ForPeer(x, peerName)
 //@   loop 1 invariant res != nil && fresh(res)
 //@   loop 1 invariant forall x *bgp.Advertisement :: (x in res) ==> (x in ads) && bgp.ForPeer(x, peerName)
 //@   loop 1 invariant forall k int :: 0 <= k && k < iter && bgp.ForPeer(ads[k], peerName) ==> (ads[k] in res)
